@@ -104,4 +104,129 @@ theorem submitAll_alive (c : Chan) (os : List Out) (hio : c.ioAlive = true) :
     rw [ih (submit c (.send o)) (by simpa using hio)]
     simp [submit]
 
+/-! ## The remaining result shapes of `run`, named, so that `run` is a composition of a submission
+step and a named result function for every operation -/
+
+/-- Queue.Declare-Ok → `Queue` -/
+def retOfQueue : Chan × Except Err (List AField) → Chan × Ret
+  | (c1, .ok [.str name, .nat mc, .nat cc]) => (c1, .queue name (some mc) (some cc))
+  | (c1, .ok _) => (c1, .err .frameUnexpected)
+  | (c1, .error e) => (c1, .err e)
+
+/-- Purge-Ok / Delete-Ok → message count -/
+def retOfCount : Chan × Except Err (List AField) → Chan × Ret
+  | (c1, .ok [.nat n]) => (c1, .count n)
+  | (c1, .ok _) => (c1, .err .frameUnexpected)
+  | (c1, .error e) => (c1, .err e)
+
+/-- Exchange.Declare-Ok → `Exchange` -/
+def retOfExchange (name : Bytes) : Chan × Except Err (List AField) → Chan × Ret
+  | (c1, .ok _) => (c1, .exchange name)
+  | (c1, .error e) => (c1, .err e)
+
+def retOfQueueNowait (q : Bytes) : Chan × Option Err → Chan × Ret
+  | (c1, none) => (c1, .queue q none none)
+  | (c1, some e) => (c1, .err e)
+
+def retOfExchangeNowait (name : Bytes) : Chan × Option Err → Chan × Ret
+  | (c1, none) => (c1, .exchange name)
+  | (c1, some e) => (c1, .err e)
+
+def retOfGet : Chan × Except Err Rep → Chan × Ret
+  | (c2, .error e) => (c2, .err e)
+  | (c2, .ok .getNone) => (c2, .getNone)
+  | (c2, .ok .getSome) => (c2, .getSome)
+  | (c2, .ok _) => (c2, .err .frameUnexpected)
+
+def retOfConsume : Chan × Except Err Rep → Chan × Ret
+  | (c2, .error e) => (c2, .err e)
+  | (c2, .ok (.consumeOk tag)) => (c2, .consumer tag)
+  | (c2, .ok _) => (c2, .err .frameUnexpected)
+
+/-- "if the submission failed return its error, else go on with `f`" -/
+def sendThen (f : Chan → Chan × Ret) : Chan × Option Err → Chan × Ret
+  | (c1, some e) => (c1, .err e)
+  | (c1, none) => f c1
+
+@[simp] theorem retOfQueue_fst (x) : (retOfQueue x).1 = x.1 := by
+  unfold retOfQueue; split <;> rfl
+@[simp] theorem retOfCount_fst (x) : (retOfCount x).1 = x.1 := by
+  unfold retOfCount; split <;> rfl
+@[simp] theorem retOfExchange_fst (n x) : (retOfExchange n x).1 = x.1 := by
+  unfold retOfExchange; split <;> rfl
+@[simp] theorem retOfQueueNowait_fst (n x) : (retOfQueueNowait n x).1 = x.1 := by
+  unfold retOfQueueNowait; split <;> rfl
+@[simp] theorem retOfExchangeNowait_fst (n x) : (retOfExchangeNowait n x).1 = x.1 := by
+  unfold retOfExchangeNowait; split <;> rfl
+@[simp] theorem retOfGet_fst (x) : (retOfGet x).1 = x.1 := by
+  unfold retOfGet; split <;> rfl
+@[simp] theorem retOfConsume_fst (x) : (retOfConsume x).1 = x.1 := by
+  unfold retOfConsume; split <;> rfl
+
+@[simp] theorem sendThen_none (f : Chan → Chan × Ret) (c : Chan) : sendThen f (c, none) = f c := rfl
+@[simp] theorem sendThen_some (f : Chan → Chan × Ret) (c : Chan) (e : Err) :
+    sendThen f (c, some e) = (c, .err e) := rfl
+@[simp] theorem retOfNowait_none (c : Chan) : retOfNowait (c, none) = (c, .unit) := rfl
+@[simp] theorem retOfNowait_some (c : Chan) (e : Err) : retOfNowait (c, some e) = (c, .err e) := rfl
+@[simp] theorem retOfUnit_error (c : Chan) (e : Err) : retOfUnit (c, .error e) = (c, .err e) := rfl
+@[simp] theorem retOfUnit_ok (c : Chan) (fs : List AField) : retOfUnit (c, .ok fs) = (c, .unit) := rfl
+@[simp] theorem retOfQueue_error (c : Chan) (e : Err) : retOfQueue (c, .error e) = (c, .err e) := rfl
+@[simp] theorem retOfCount_error (c : Chan) (e : Err) : retOfCount (c, .error e) = (c, .err e) := rfl
+@[simp] theorem retOfExchange_error (n : Bytes) (c : Chan) (e : Err) :
+    retOfExchange n (c, .error e) = (c, .err e) := rfl
+@[simp] theorem retOfQueueNowait_some (n : Bytes) (c : Chan) (e : Err) :
+    retOfQueueNowait n (c, some e) = (c, .err e) := rfl
+@[simp] theorem retOfExchangeNowait_some (n : Bytes) (c : Chan) (e : Err) :
+    retOfExchangeNowait n (c, some e) = (c, .err e) := rfl
+
+/-! `run`, operation by operation, for the operations whose result is not already a `retOfUnit` /
+`retOfNowait` (all by unfolding). -/
+
+theorem run_publish (c : Chan) (ex rk : Bytes) (m i : Bool) (props body : Bytes) :
+    run c (.publish ex rk m i props body) =
+      sendThen (fun c1 => retOfNowait (submitAll c1 (contentFrames c.id c.limit props body)))
+        (callNowait c (.method c.id 60 40 [.nat 0, .str ex, .str rk, .bool m, .bool i])) := rfl
+
+theorem run_queueDeclare (c : Chan) (q : Bytes) (o : QueueDeclareOpts) :
+    run c (.queueDeclare q o) = retOfQueue (call c (mQueueDeclare c.id q o false false) 50 11) := rfl
+
+theorem run_queueDeclareNowait (c : Chan) (q : Bytes) (o : QueueDeclareOpts) :
+    run c (.queueDeclareNowait q o) =
+      if q = [] then (c, .panic) else retOfQueueNowait q (callNowait c (mQueueDeclare c.id q o false true)) := rfl
+
+theorem run_queueDeclarePassive (c : Chan) (q : Bytes) :
+    run c (.queueDeclarePassive q) =
+      retOfQueue (call c (mQueueDeclare c.id q ⟨false, false, false, emptyTable⟩ true false) 50 11) := rfl
+
+theorem run_get (c : Chan) (q : Bytes) (noAck : Bool) :
+    run c (.get q noAck) =
+      sendThen (fun c1 => retOfGet (handleRecv c1))
+        (handleSend c (.send (.method c.id 60 70 [.nat 0, .str q, .bool noAck]))) := rfl
+
+theorem run_consume (c : Chan) (q : Bytes) (nl na ex : Bool) (args : Bytes) :
+    run c (.consume q nl na ex args) =
+      sendThen (fun c1 => retOfConsume (handleRecv c1))
+        (handleSend c (.send (.method c.id 60 20
+          [.nat 0, .str q, .str [], .bool nl, .bool na, .bool ex, .bool false, .table args]))) := rfl
+
+theorem run_queuePurge_wait (c : Chan) (q : Bytes) :
+    run c (.queuePurge q false) = retOfCount (call c (.method c.id 50 30 [.nat 0, .str q, .bool false]) 50 31) := rfl
+
+theorem run_queueDelete_wait (c : Chan) (q : Bytes) (iu ie : Bool) :
+    run c (.queueDelete q iu ie false) =
+      retOfCount (call c (.method c.id 50 40 [.nat 0, .str q, .bool iu, .bool ie, .bool false]) 50 41) := rfl
+
+theorem run_exchangeDeclare (c : Chan) (ty name : Bytes) (o : ExchangeDeclareOpts) :
+    run c (.exchangeDeclare ty name o) =
+      retOfExchange name (call c (mExchangeDeclare c.id ty name o false false) 40 11) := rfl
+
+theorem run_exchangeDeclareNowait (c : Chan) (ty name : Bytes) (o : ExchangeDeclareOpts) :
+    run c (.exchangeDeclareNowait ty name o) =
+      retOfExchangeNowait name (callNowait c (mExchangeDeclare c.id ty name o false true)) := rfl
+
+theorem run_exchangeDeclarePassive (c : Chan) (name : Bytes) :
+    run c (.exchangeDeclarePassive name) =
+      retOfExchange name
+        (call c (mExchangeDeclare c.id direct name ⟨false, false, false, emptyTable⟩ true false) 40 11) := rfl
+
 end AmqModel.Api
